@@ -17,6 +17,7 @@ def run(chk):
     X.suspend_decision(chk, "C07")
     X.on_task_complete(chk, "C07", want=("C07",))
     X.timer_loop(chk, "C07")
+    X.timer_scheduler_methods(chk, "C07")   # the contract of schedule_resume used by _on_task_complete, and shutdown
     from . import lockset
     lockset.lock_discipline(chk, "C07", ["_pending_resumes", "_schedule_counter"], cls_key="concurrency.executor.TimerScheduler")   # the heap of pending resumes is shared by the timer thread and the branches' done-callbacks
     from . import misc_contracts
